@@ -7,6 +7,7 @@ import (
 	"math"
 	"strconv"
 	"strings"
+	"unicode"
 	"unicode/utf16"
 
 	"github.com/woodsbury/jmespath/internal/lexer"
@@ -2270,6 +2271,10 @@ func parseQuotedIdentifier(s string) (string, error) {
 				}
 
 				r = utf16.DecodeRune(r, r2)
+				if r == unicode.ReplacementChar {
+					return "", &invalidQuotedStringError{s}
+				}
+
 				v = v[6:]
 			}
 
